@@ -41,6 +41,7 @@ type lifeState struct {
 	lastErr, lastVal *eng.Term
 	prepVal, prepErr *eng.Term
 	nodeTerm         *eng.Term
+	emptyBatch       bool
 	loops            []loopRec
 	execLoop         string
 	obs              *eng.Term
@@ -56,7 +57,7 @@ type lifeState struct {
 
 func (s lifeState) Key() string {
 	var sb strings.Builder
-	fmt.Fprintf(&sb, "%d,%d,%s@%s,%s,%s,%s,%s,%s|", s.nPrep, s.nPost, s.last, s.lastPos, s.lastErr.Key(), s.lastVal.Key(), s.prepVal.Key(), s.prepErr.Key(), s.nodeTerm.Key())
+	fmt.Fprintf(&sb, "%d,%d,%s@%s,%s,%s,%s,%s,%s|", s.nPrep, s.nPost, s.last, s.lastPos, s.lastErr.Key(), s.lastVal.Key(), s.prepVal.Key(), s.prepErr.Key(), s.nodeTerm.Key()+fmt.Sprint(s.emptyBatch))
 	for _, l := range s.loops {
 		fmt.Fprintf(&sb, "%s:%d,%d,%d,%v;", l.id, l.iterExecs, l.chainExecs, l.exited, l.fbDone)
 	}
@@ -276,7 +277,12 @@ func (m *LifeMon) OnEvent(c *eng.Ctx, ms eng.MState, ev *eng.Event) eng.MState {
 		switch ev.Class {
 		case "ctx.Err":
 			if len(ev.Results) > 0 {
-				s.obs, s.fresh, s.cut = ev.Results[0], false, false
+				if s.cutAny && !batch || s.cut {
+					// context contract (A2): once done, Err() stays non-nil
+					c.E.Assume(c.St.Facts(), eng.Bin("!=", ev.Results[0], eng.Nil()), true)
+				}
+				wasCut := s.cut
+				s.obs, s.fresh, s.cut = ev.Results[0], false, wasCut
 			}
 		case "ctx.Done":
 			if len(ev.Results) > 0 {
@@ -589,6 +595,9 @@ func (m *LifeMon) onPost(c *eng.Ctx, s lifeState, ev *eng.Event, batch bool, chk
 	} else {
 		chk("C01.R3", len(ev.Args) == 4 && ev.Args[0] == m.Ctx && ev.Args[1] == m.Shared, "post must receive the run's context and store, got ("+prettyArgs(ev.Args)+")")
 		chk("C01.R3", s.nPrep == 1 && knownNil(c, s.prepErr), "batch post requires a successful prep")
+		if len(ev.Args) == 4 {
+			s.emptyBatch = c.Eval(eng.Bin("==", c.E.LenTerm(c.St, unbox(ev.Args[3])), eng.ConstInt(0))) == eng.TriTrue
+		}
 	}
 	chk("C01.R3", ev.Recv != nil && s.nodeTerm != nil && sameNode(ev.Recv, s.nodeTerm), "post is invoked on "+ev.Recv.Pretty()+", not on the node being run")
 	chk("C20.R3", !s.waited, "a wait follows the last exec attempt (before post)")
@@ -614,11 +623,20 @@ func (m *LifeMon) onReturn(c *eng.Ctx, s lifeState, ev *eng.Event, batch bool) {
 		m.Col.Check(rule, con, ok, ev.Pos, msg, pathIf(!ok, c))
 	}
 	ck("C20.R3", !s.waited, "a wait follows the last exec attempt (before returning)")
+	if !batch && (s.last == "Exec" || s.last == "Fb") {
+		// the run ends right after the exec phase without post: only legal when that phase is known to have failed
+		ck("C01.R4", knownNonNil(c, s.lastErr), "the run returns after an exec attempt/fallback that may have succeeded, without invoking post (post must run whenever the exec phase produced a result without error)")
+	}
 	switch c.IsNil(err) {
 	case eng.TriTrue:
 		ok := s.last == "Post" && knownNil(c, s.lastErr)
 		ck("C04.R1", ok, fmt.Sprintf("nil error returned although the run did not end with a successful post (last callback %q)", s.last))
-		ck("C01.R5", ok && (act == s.lastVal || isStringConst(act)), "a successful run must return post's action (or the default action), got "+act.Pretty())
+		okAct := act == s.lastVal
+		if sc, isC := act.StringConst(); isC && s.lastVal != nil {
+			// the default action, and only in place of an empty action from post
+			okAct = sc == m.R.DefaultActionValue() && sc != "" && c.Eval(eng.Bin("==", s.lastVal, eng.ConstString(""))) == eng.TriTrue
+		}
+		ck("C01.R5", ok && okAct, "a successful run must return post's action, or the default action exactly when post returned the empty action; got "+act.Pretty())
 		ck("C05.R2", batch || !s.cutAny, "success reported on a path that observed the context as cancelled")
 		nonEmpty := false
 		if sc, isC := act.StringConst(); isC {
@@ -626,7 +644,11 @@ func (m *LifeMon) onReturn(c *eng.Ctx, s lifeState, ev *eng.Event, batch bool) {
 		} else {
 			nonEmpty = c.Eval(eng.Bin("==", act, eng.ConstString(""))) == eng.TriFalse
 		}
-		m.Col.CheckAt("C18.R1", v+"|Run:success-return", nonEmpty, "post@"+s.lastPos, "a successful run may return the empty action: "+act.Pretty()+" is not tested against \"\" on this path (return at "+posStr(ev.Pos)+")", pathIf(!nonEmpty, c))
+		role := v
+		if batch && s.emptyBatch {
+			role = "batch-empty"
+		}
+		m.Col.CheckAt("C18.R1", role+"|Run:success-return", nonEmpty, "post@"+s.lastPos, "a successful run may return the empty action: "+act.Pretty()+" is not tested against \"\" on this path (return at "+posStr(ev.Pos)+")", pathIf(!nonEmpty, c))
 	case eng.TriFalse:
 		sc, isC := act.StringConst()
 		ck("C01.R5", isC && sc == "", "an error return must carry the empty action, got "+act.Pretty())
